@@ -69,6 +69,8 @@ class FastEngine(Engine):
         m = re.match(r"^(.*) as (.*) \((\w+)(.*)\)$", s)
         if m: return lambda fr: Engine.rvalue(self, fr, s)      # rare: slow path
         if s.startswith(("copy ", "move ", "const ")): return self.c_operand(fn, s)
+        mfk = re.match(r"^&(?:\(fake\)|fake(?: shallow| deep)?) (.*)$", s)
+        if mfk: return self.c_place(mfk.group(1))
         if s.startswith("&mut "): return self.c_place(s[5:])
         if s.startswith("&raw "): return self.c_place(s.split(" ", 2)[2])
         if s.startswith("&"): return self.c_place(s[1:])
